@@ -93,6 +93,25 @@ func (f *ReplayFilter) TestAndSet(now time.Time, buf []byte) bool {
 	f.Lock()
 	defer f.Unlock()
 
+	return f.testAndSetLocked(now, digest)
+}
+
+// TestAndSetNow is TestAndSet using the current time.  The clock is sampled
+// while the filter is locked, so that the timestamps of concurrent callers can
+// not arrive out of order.  (A caller that sampled the clock first but got the
+// lock last would look like the clock going backwards to compactFilter, which
+// would forget everything, including the entry another caller just inserted
+// for the very same value.)
+func (f *ReplayFilter) TestAndSetNow(buf []byte) bool {
+	digest := siphash.Hash(f.key[0], f.key[1], buf)
+
+	f.Lock()
+	defer f.Unlock()
+
+	return f.testAndSetLocked(time.Now(), digest)
+}
+
+func (f *ReplayFilter) testAndSetLocked(now time.Time, digest uint64) bool {
 	f.compactFilter(now)
 
 	if e := f.filter[digest]; e != nil {
